@@ -94,6 +94,9 @@ def float_op(proc: str, x: float, p: Dict[str, Any], ctx: Dict[str, Any], log: l
     if proc == "VTwo":
         log.append(("VTwo", {"factor": p["factor"], "addend": p["addend"]}))
         return x * p["factor"] + p["addend"]
+    if proc == "VKwMix":
+        log.append(("VKwMix", {"factor": p["factor"], "offset": p["offset"]}))
+        return x * p["factor"] + p["offset"]
     if proc == "VFive":
         log.append(("VFive", {k: p[k] for k in ("factor", "addend", "offset", "gain", "bias")}))
         return x * p["factor"] + p["addend"] + p["offset"] + p["gain"] + p["bias"]
